@@ -55,6 +55,7 @@ def required_counters(tier):
         "checker.None": 10,
         "checker.tuple_spelling": 5,
         "pytest_option_runs": 1,
+        "histories.hook_api_with_warnings_as_errors": 10,
         "ipython_magic_runs": 1,
     }
 
@@ -260,10 +261,10 @@ def expected(mods, ops, spy_imports=None):
 CHILD = os.path.join(os.path.dirname(os.path.abspath(__file__)), "c11_child.py")
 
 
-def run_child(root, ops, mode="api", extra=None):
+def run_child(root, ops, mode="api", extra=None, warnings_as_errors=False):
     env = dict(os.environ)
     env["PYTHONDONTWRITEBYTECODE"] = "1"
-    spec = {"root": root, "ops": ops, "mode": mode, "extra": extra}
+    spec = {"root": root, "ops": ops, "mode": mode, "extra": extra, "warnings_as_errors": warnings_as_errors}
     r = subprocess.run([sys.executable, CHILD, json.dumps(spec)], capture_output=True, text=True, env=env, timeout=600, cwd=root)
     try:
         return json.loads(r.stdout.strip().splitlines()[-1])
@@ -329,9 +330,12 @@ def run_history(rec, rng, key):
 
             compileall.compile_dir(root, quiet=2, workers=1)
             rec.count("histories.with_plain_pyc_present")
-        out = run_child(root, ops)
-        case = {"rngkey": key, "forest": {m: v for m, v in mods.items()}, "ops": ops, "plain_pyc_present": precompiled}
+        strict = rng.random() < 0.3
+        out = run_child(root, ops, warnings_as_errors=strict)
+        case = {"rngkey": key, "forest": {m: v for m, v in mods.items()}, "ops": ops, "plain_pyc_present": precompiled, "hook_api_called_with_warnings_as_errors": strict, "api_warnings": out.get("api_warnings")}
         rec.count("histories")
+        if strict:
+            rec.count("histories.hook_api_with_warnings_as_errors")
         if any(isinstance(o.get("checker"), list) for o in ops):
             rec.count("checker.tuple_spelling")
         rec.case((sorted(mods), json.dumps(ops)), nontrivial=True)
